@@ -16,6 +16,15 @@ loop with virtual time that is advanced only by the schedule; handlers are calle
 iterations, the consumer task is advanced by running the loop until nothing is ready.
 
 Tokens (same vocabulary as `siodriver simple`): P · C · Cf · T · Kc Kd Kf · Sr St Se (Sc = call()).
+
+receive() with other timeout values (harness tokens, `RECV_TIMEOUT`): Sz = receive(timeout=0), Sn = a negative
+timeout, Sp = a tiny positive one.  All three are `St` for the model (a receive that was given a timeout).  A wait
+with timeout <= 0 expires at once when the flag is clear (threading.Event.wait(0) returns False without waiting,
+asyncio.wait_for(..., 0) raises TimeoutError without the waiter ever being notified): the thread world lets such a
+wait expire within the consumer step that made it, the asyncio world needs nothing (the loop does it); for the
+model that is the pair `C T` ("the consumer parks; the timeout fires before anything else happens") — `T` changes
+nothing in the model unless the consumer is parked in a timed wait, so a non-empty buffer is returned whatever the
+timeout.  `mtoks` records, per harness token, the model tokens it stands for.
 """
 import _thread
 import asyncio
@@ -44,6 +53,7 @@ class Actor:
         self.blocked_on = None
         self.woken = False
         self.timed = False
+        self.immediate = False
         self.wait_result = None
         self.done = False
         self.ops = []                # labels of accesses made (diagnostics)
@@ -171,9 +181,11 @@ class EventProxy:
         a.blocked_on = self
         a.woken = False
         a.timed = timeout is not None
+        a.immediate = timeout is not None and timeout <= 0    # threading.Event.wait(<=0): no waiting at all
         a.park('blocked')
         a.blocked_on = None
         a.woken = False
+        a.immediate = False
         return a.wait_result
 
 
@@ -320,14 +332,20 @@ def arrival(i):
     return (ev[0],) + tuple(ev[1:]) + ((i,) if i >= len(EVENT_ARGS) else ())
 
 
-TOKENS = ('P', 'C', 'Cf', 'T', 'Kc', 'Kd', 'Kf', 'Sr', 'St', 'Se', 'Sc')
+TOKENS = ('P', 'C', 'Cf', 'T', 'Kc', 'Kd', 'Kf', 'Sr', 'St', 'Sz', 'Sn', 'Sp', 'Se', 'Sc')
+# receive(timeout=...) per start token; ZERO_OPS: the timeout is already over when the call is made
+RECV_TIMEOUT = {'Sr': None, 'St': 5, 'Sz': 0, 'Sn': -0.5, 'Sp': 1e-9}
+RECV_OPS = tuple(RECV_TIMEOUT)
+ZERO_OPS = ('Sz', 'Sn')
+START_OPS = RECV_OPS + ('Se', 'Sc')
+# call(timeout=...) of the n-th finished-or-not application call (passed through to client.call untouched)
+CALL_TIMEOUTS = (7, 0, None, 0.0, -1, 60)
 KNAME = {'Kc': 'connect', 'Kd': 'disconnect', 'Kf': '__disconnect_final'}
 
 
 class WorldBase:
     """book-keeping shared by both worlds: what the application and the handlers observably did"""
     namespace = '/chat'
-    TIMEOUT = 5
 
     def _init_obs(self):
         self.outcomes = []          # per finished consumer call: dict(op=, kind='ret'|'exc'|'sent', value/cls, facts)
@@ -338,6 +356,25 @@ class WorldBase:
         self.cur_op = None
         self.timeout_on = None      # which event the wait that just timed out was parked on
         self.oracle = []            # (signature-or-None, text)
+        self.mtoks = []             # per harness token: the model tokens it stands for
+        self.start_avail = 0        # when the current call was made: arrived (append+set done) and unreturned
+        self.start_flag = False     # ... and the state of the input_event flag
+
+    def _note_start(self):
+        self.start_avail = max(0, self.completed - self.returned)   # (an event can be returned before its set())
+        self.start_flag = self.input_flag()
+
+    def _note_token(self, tok):
+        """called by do() before the token is executed"""
+        if tok in RECV_OPS:
+            m = ['Sr' if tok == 'Sr' else 'St']
+        elif tok == 'Sc':
+            m = ['Se']
+        elif tok in ('C', 'Cf') and self.cur_op in ZERO_OPS:
+            m = [tok, 'T']          # a wait made by this step with the flag clear expires at once
+        else:
+            m = [tok]
+        self.mtoks.append(m)
 
     # -- facts for the oracle
     @property
@@ -348,16 +385,16 @@ class WorldBase:
     def _record(self, kind, value):
         o = {'op': self.cur_op, 'kind': kind, 'value': value, 'completed': self.completed,
              'invoked': self.invoked, 'returned': self.returned, 'ended': self.ended,
-             'waiting_on': self.timeout_on}
+             'waiting_on': self.timeout_on, 'avail_start': self.start_avail, 'flag_start': self.start_flag}
         self.outcomes.append(o)
         self._judge(o)
-        if kind == 'ret' and self.cur_op in ('Sr', 'St'):
+        if kind == 'ret' and self.cur_op in RECV_OPS:
             self.returned += 1
 
     def _judge(self, o):
         """the property, evaluated on what the implementation observably did"""
         op, kind, v = o['op'], o['kind'], o['value']
-        if op in ('Sr', 'St'):
+        if op in RECV_OPS:
             if kind == 'ret':
                 k = o['returned']
                 if k >= o['invoked']:
@@ -367,13 +404,14 @@ class WorldBase:
                     self.oracle.append((None, 'receive() #%d returned %r, arrival #%d was %r (order/once/shape)'
                                         % (k, v, k, list(arrival(k)))))
             elif kind == 'exc' and v == 'TimeoutError':
-                if op != 'St':
+                if op == 'Sr':
                     self.oracle.append((None, 'receive() without timeout raised TimeoutError'))
                 if o['completed'] > o['returned']:
                     sig = 'recv-at-connection-wait-ignores-buffer' if o['waiting_on'] == 'cev' else None
-                    self.oracle.append((sig, 'receive(timeout) raised TimeoutError while %d arrived event(s) were '
-                                             'available (append+set done, not yet returned); it was waiting on %s'
-                                        % (o['completed'] - o['returned'], o['waiting_on'])))
+                    self.oracle.append((sig, 'receive(timeout=%r) raised TimeoutError while %d arrived event(s) '
+                                             'were available (append+set done, not yet returned); it was waiting '
+                                             'on %s' % (RECV_TIMEOUT[op], o['completed'] - o['returned'],
+                                                        o['waiting_on'])))
             elif kind == 'exc' and v == 'DisconnectedError':
                 if not o['ended']:
                     self.oracle.append((None, 'receive() raised DisconnectedError but the connection has not '
@@ -391,6 +429,14 @@ class WorldBase:
                 ok = (len(sent) == self.sent_before + 1 and sent[-1][0] == want_kind and
                       sent[-1][1:4] == self.cur_send_args and
                       v == (None if op == 'Se' else ('ack', len(sent))))
+                if ok and op == 'Sc':
+                    # call(timeout=...) is handed to client.call() as given (0 and None included)
+                    got = sent[-1][4]
+                    ok = got == self.cur_call_timeout and type(got) is type(self.cur_call_timeout)
+                    if not ok:
+                        self.oracle.append((None, 'call(timeout=%r) reached client.call() as timeout=%r'
+                                            % (self.cur_call_timeout, got)))
+                        return
                 if not ok:
                     self.oracle.append((None, '%s returned %r but the client accepted %r (expected exactly one '
                                               '%s of %r)' % (want_kind, v, sent[self.sent_before:], want_kind,
@@ -404,7 +450,7 @@ class WorldBase:
 
     def judge_blocked(self):
         """called after every token: a parked receive() with an available event must be runnable"""
-        if self.consumer_status() == 'blocked' and self.cur_op in ('Sr', 'St') and \
+        if self.consumer_status() == 'blocked' and self.cur_op in RECV_OPS and \
                 self.completed > self.returned:
             w = self.waiting_on()
             sig = 'recv-at-connection-wait-ignores-buffer' if w == 'cev' else None
@@ -421,7 +467,7 @@ class WorldBase:
         for o in self.outcomes:
             if o['kind'] == 'exc':
                 out.append({'exc': o['value']})
-            elif o['op'] in ('Sr', 'St'):
+            elif o['op'] in RECV_OPS:
                 out.append({'ret': o['value']})
             else:
                 out.append('sent')
@@ -465,6 +511,7 @@ class ThreadWorld(WorldBase):
         sc.input_buffer = self.buf
         self.sent_before = 0
         self.cur_send_args = None
+        self.cur_call_timeout = None
         self.next_consumer_op = None
         self.next_conn = None
         self.producer = sched.spawn('producer', self._producer)
@@ -496,19 +543,21 @@ class ThreadWorld(WorldBase):
             a.park('start')
             op = self.next_consumer_op
             self.cur_op = op
+            self.timeout_on = None
             self.sent_before = len(self.client.sent)
             n = len(self.outcomes)
             try:
                 if op == 'Sr':
                     r = sc.receive()
-                elif op == 'St':
-                    r = sc.receive(timeout=self.TIMEOUT)
+                elif op in RECV_OPS:
+                    r = sc.receive(timeout=RECV_TIMEOUT[op])
                 elif op == 'Se':
                     self.cur_send_args = ('ev%d' % n, {'n': n}, self.namespace)
                     r = sc.emit('ev%d' % n, {'n': n})
                 else:
                     self.cur_send_args = ('ev%d' % n, ('a', n), self.namespace)
-                    r = sc.call('ev%d' % n, ('a', n), timeout=7)
+                    self.cur_call_timeout = CALL_TIMEOUTS[n % len(CALL_TIMEOUTS)]
+                    r = sc.call('ev%d' % n, ('a', n), timeout=self.cur_call_timeout)
                 self._record('ret', r)
             except Abort:
                 raise
@@ -530,8 +579,12 @@ class ThreadWorld(WorldBase):
         b = self.consumer.blocked_on
         return None if b is None else b.name
 
+    def input_flag(self):
+        return self.iev.flag
+
     def do(self, tok):
         s = self.sched
+        self._note_token(tok)
         if tok == 'P':
             if self.producer.status == 'idle':
                 s.step(self.producer)
@@ -545,12 +598,17 @@ class ThreadWorld(WorldBase):
             if self.consumer.status != 'idle':
                 self.client.next_ok = (tok == 'C')
                 s.step(self.consumer)
+                if self.consumer.status == 'blocked' and self.consumer.immediate:
+                    # Event.wait(timeout <= 0) found the flag clear: it returns False without waiting
+                    self.timeout_on = self.waiting_on()
+                    s.timeout(self.consumer)
         elif tok == 'T':
             if self.consumer.status != 'idle':
                 self.timeout_on = self.waiting_on()
                 s.timeout(self.consumer)
-        elif tok in ('Sr', 'St', 'Se', 'Sc'):
+        elif tok in START_OPS:
             if self.consumer.status == 'idle':
+                self._note_start()
                 self.next_consumer_op = tok
                 s.step(self.consumer)
         else:
@@ -667,25 +725,28 @@ class AsyncWorld(WorldBase):
         self.task = None
         self.sent_before = 0
         self.cur_send_args = None
+        self.cur_call_timeout = None
         self._prod_mid = False
         self._conn_mid = False
 
     async def _consume(self, op):
         sc = self.sc
         self.cur_op = op
+        self.timeout_on = None
         self.sent_before = len(self.client.sent)
         n = len(self.outcomes)
         try:
             if op == 'Sr':
                 r = await sc.receive()
-            elif op == 'St':
-                r = await sc.receive(timeout=self.TIMEOUT)
+            elif op in RECV_OPS:
+                r = await sc.receive(timeout=RECV_TIMEOUT[op])
             elif op == 'Se':
                 self.cur_send_args = ('ev%d' % n, {'n': n}, self.namespace)
                 r = await sc.emit('ev%d' % n, {'n': n})
             else:
                 self.cur_send_args = ('ev%d' % n, ('a', n), self.namespace)
-                r = await sc.call('ev%d' % n, ('a', n), timeout=7)
+                self.cur_call_timeout = CALL_TIMEOUTS[n % len(CALL_TIMEOUTS)]
+                r = await sc.call('ev%d' % n, ('a', n), timeout=self.cur_call_timeout)
             self._record('ret', r)
         except asyncio.CancelledError:
             raise
@@ -715,8 +776,12 @@ class AsyncWorld(WorldBase):
             return 'iev'
         return '?'
 
+    def input_flag(self):
+        return self.sc.input_event.is_set()
+
     def do(self, tok):
         loop = self.loop
+        self._note_token(tok)
         if tok == 'P':
             i = self.invoked
             self.invoked += 1
@@ -743,8 +808,9 @@ class AsyncWorld(WorldBase):
                     loop.vtime = h._when + 0.001
                     loop.call_soon(lambda: None)
                     loop.pump()
-        elif tok in ('Sr', 'St', 'Se', 'Sc'):
+        elif tok in START_OPS:
             if self.consumer_status() == 'idle':
+                self._note_start()
                 self.cur_op = tok
                 self.task = loop.create_task(self._consume(tok))
         else:
